@@ -108,6 +108,27 @@ func drawStop(rt *rapid.T, o gen.HistOpt, kinds []string) *StopCase {
 		}
 		c.H = seqHistory(seq, rapid.IntRange(0, 15).Draw(rt, "long_variant"))
 	}
+	deep := rapid.IntRange(0, 19).Draw(rt, "deep_backlog") == 0
+	if deep {
+		// a backlog of thousands of packets behind a handler that is held in its first call, and a stop
+		// that does not drain it: whatever read-ahead the library has is full at that moment
+		seq := make([]int, rapid.SampledFrom([]int{400, 700, 1500}).Draw(rt, "deep_len"))
+		for i := range seq {
+			seq[i] = rapid.SampledFrom([]int{0, 1, 3, 4}).Draw(rt, "deep_sym")
+		}
+		c.H = seqHistory(seq, rapid.IntRange(0, 15).Draw(rt, "deep_variant"))
+		var dk []string
+		for _, k := range []string{"handler_err", "cancel_gate", "cancel_in", "handler_err_cancel"} {
+			for _, have := range kinds {
+				if have == k {
+					dk = append(dk, k)
+				}
+			}
+		}
+		if len(dk) > 0 {
+			kinds = dk
+		}
+	}
 	l, err := c.H.Lay()
 	if err != nil {
 		rt.Skip(err.Error())
@@ -148,6 +169,12 @@ func drawStop(rt *rapid.T, o gen.HistOpt, kinds []string) *StopCase {
 		c.GateCall = rapid.IntRange(1, max(1, ntx)).Draw(rt, "gate_call")
 		if k == "handler_err" || k == "handler_err_cancel" {
 			c.GateCall = c.Fault.At
+		}
+	}
+	if deep {
+		c.Pacing, c.Handler, c.GateCall = PaceFarAhead, HandlerGated, 1
+		if c.Fault.Kind != "cancel_gate" {
+			c.Fault.At = 1
 		}
 	}
 	if c.Handler == HandlerSlow {
@@ -191,6 +218,9 @@ func stopClasses(c *StopCase, o *StopObs) []string {
 	}
 	if c.QuietAfter {
 		cls = append(cls, "master-silent-after-the-cause")
+	}
+	if len(c.H.Units) >= 400 && c.Handler == HandlerGated && c.GateCall == 1 {
+		cls = append(cls, "deep-backlog-behind-gated-first-call")
 	}
 	if c.LateDeadlineMs > 0 {
 		if o.CallerCancelled {
